@@ -43,6 +43,7 @@ def compositions(n):
 
 def scenarios(tier, seed):
     out = [("nofee", qp, bp) for qp in (0, 2, 8) for bp in (0, 2)]
+    out += [("two-pairs", pct, mn) for pct in PCTS for mn in MINS]
     for pct in PCTS:
         for mn in MINS:
             for qp in (0, 2, 8):
@@ -102,8 +103,66 @@ def run_case(fee, qp, bp, side, parts, prices):
     return bad, nfills
 
 
+def run_two_pairs(sc, res):
+    """Two pairs sharing the quote symbol with DIFFERENT quote precisions: each order's fee is rounded up to the precision
+    of ITS pair, whatever was traded before."""
+    from worlds.exch import PAIRS as ALLP
+    _, pct, mn = sc
+    P1, P2 = ALLP[0], ALLP[1]
+    for (qp1, qp2) in ((2, 6), (6, 2), (0, 8), (2, 2)):
+        for order in ((0, 1), (1, 0), (0, 1, 0), (1, 0, 1)):
+            for price in ("33.337", "0.071234", "15061.72"):
+                d = bs.backtesting_dispatcher()
+                e = ex.Exchange(d, {"USD": D(10 ** 12), "BTC": D(10 ** 6), "ETH": D(10 ** 6)},
+                                fee_strategy=fees.Percentage(D(pct), D(mn)), liquidity_strategy_factory=liquidity.InfiniteLiquidity)
+                e.add_bar_source(bs.FifoQueueEventSource())
+                precs = {0: qp1, 1: qp2}
+                e.set_pair_info(P1, bs.PairInfo(0, qp1))
+                e.set_pair_info(P2, bs.PairInfo(0, qp2))
+                e.set_symbol_precision("BTC", 0)
+                e.set_symbol_precision("ETH", 0)
+                e.set_symbol_precision("USD", max(qp1, qp2))
+                t = 0
+                bad = []
+                for which in order:
+                    pair = (P1, P2)[which]
+                    qp = precs[which]
+                    p = D(price).quantize(D(1).scaleb(-qp))
+                    if p <= 0:
+                        continue
+                    t += 1
+                    d._set_now(T(t))
+                    call(e._on_bar_event(bs.BarEvent(T(t), bs.Bar(T(t - 1), pair, p, p, p, p, D(10)))))
+                    oid = call(e.create_market_order(SIDE["B"], pair, D(3))).id
+                    t += 1
+                    d._set_now(T(t))
+                    call(e._on_bar_event(bs.BarEvent(T(t), bs.Bar(T(t - 1), pair, p, p, p, p, D(10)))))
+                    info = call(e.get_order_info(oid))
+                    if info.amount_filled == 0:
+                        continue
+                    exp = max(info.quote_amount_filled * D(pct) / 100, D(mn)).quantize(D(1).scaleb(-qp), rounding=ROUND_UP)
+                    got = sum(info.fees.values(), D(0))
+                    if got != exp:
+                        bad.append(("fee-amount", f"pair with quote precision {qp}: quote {info.quote_amount_filled}, fees {got}, "
+                                    f"expected {exp}"))
+                case = dict(kind="two-pairs", fee=[pct, mn], quote_precisions=[qp1, qp2], order_of_pairs=list(order), price=price)
+                res.executions += 1
+                res.transitions += 2 * len(order)
+                res.validated += 1
+                key = h64(("two-pairs", sc, qp1, qp2, order, price))
+                res.states.add(key)
+                res.nontrivial.add(key)
+                res.outcomes["two-pairs"] += 1
+                for clause, detail in bad:
+                    res.violation(f"{PROPERTY}:{clause}:two-pairs", f"{detail}; {case}", case, size=len(order))
+    res.samples.append(dict(kind="two-pairs", fee=[pct, mn]))
+    return res
+
+
 def run_scenario(sc, tier):
     res = Result()
+    if sc[0] == "two-pairs":
+        return run_two_pairs(sc, res)
     maxn = BOUNDS[tier]["max_units"]
     if sc[0] == "nofee":
         fee = None
@@ -140,6 +199,10 @@ def run_scenario(sc, tier):
 
 
 def replay(rep):
+    if rep.get("kind") == "two-pairs":
+        res = Result()
+        run_two_pairs(("two-pairs", rep["fee"][0], rep["fee"][1]), res)
+        return [v["message"] for v in res.violations][:5]
     fee = None if rep["fee"] is None else tuple(rep["fee"])
     print("case:", rep)
     bad, _ = run_case(fee, rep["qp"], rep["bp"], rep["side"], tuple(rep["parts"]), tuple(rep["prices"]))
